@@ -673,7 +673,7 @@ func main() {
 	h.m = m
 	defer m.close()
 	h.res.Rule = "per group (k256, BLS12-381 G1; thorough: k256 x3, BLS x2, P-256 x1 variants) and boundary variant (witness random/1/q-1/0) one statement-witness pair of every protocol " +
-		"(Schnorr, Okamoto, batch Schnorr k=3, ElGamal opening, dlog-with-ElGamal, AND of 2 Schnorr, OR of 3 Schnorr with one witness; Paillier n-th root with a cached modulus, ring-Pedersen prm with a tiny key; pailliern and paillier/lp with pre-generated 2048-bit moduli, thorough also cggmp21/blummod and paillier/range) x every compiler " +
+		"(Schnorr, Okamoto, batch Schnorr k=3, ElGamal opening, dlog-with-ElGamal, AND of 2 Schnorr, OR of 3 Schnorr with one witness; Paillier n-th root with a cached modulus, ring-Pedersen prm with a tiny key; pailliern, paillier/lp, cggmp21 enc and encelg with pre-generated 2048-bit moduli; thorough also cggmp21 blummod/fac/affg/affgstar/dec, paillier/range and paillier/lpdl) x every compiler " +
 		"(Fiat-Shamir, Fischlin, randomised Fischlin): prove in a random context (session seed, 0-2 caller appends, prover id), verify in the same and in 10 changed contexts, " +
 		"flip bytes of the proof (every byte for Fiat-Shamir proofs; first/last 16 + a sample for the long Fischlin proofs in the quick tier), every decoded component (CBOR leaf) altered alone, structural changes, forged proofs; " +
 		"sigma level: rewound provers with 5 challenges (random, 0, 1, 2^128-1), simulator, extractor. A case is non-trivial when the proof decodes."
